@@ -98,6 +98,14 @@ check("C09", "model_checking",
       "Trusted: the link resolver (mc/site.py, html.parser based) and the project generator (mc/projgen.py). `dot` is stubbed: links inside real SVG are outside this check. Relative mode only (project_url empty).",
       "bounded-exhaustive enumeration of project shapes x deviation-bounded option vectors with a link-resolving oracle", "DESIGN.md 5/C09")
 
+check("C10", "model_checking",
+      "(a) explicit-state breadth-first search over all histories of <= 3 (thorough 4) get_name requests to the real NameSelector over 16 names x 8 (directory, kind) "
+      "classes x 2 entities, de-duplicated on the selector's exact internal tables; invariants: entity -> (directory, case-folded stem) injective, stems stable. "
+      "(b) every single / pair (thorough: triples) of 20 name-relation fragments x 2 file orders built to a complete site: page objects have distinct output files, "
+      "distinct items on a page have distinct anchors, the page at each entity's URL carries its tracer, src/<name> is the defining file.",
+      "Trusted: the fragment catalogue and oracles in checks/c10.py; output paths are compared case-insensitively. The flat src/ copy collision is a listed known finding.",
+      "explicit-state BFS of the name selector + bounded-exhaustive project pairs with injectivity oracle", "DESIGN.md 5/C10")
+
 ALL = [f"C{i:02d}" for i in range(1, 21)]
 PENDING_REASON = "check not built yet in this round (planned: see DESIGN.md section 5); will be claimed once its exhaustive check exists"
 
